@@ -584,13 +584,13 @@ namespace cds { namespace intrusive {
 
         size_t bucket_no( size_t nHash ) const
         {
-            return nHash & ((1 << m_nBucketCountLog2.load( memory_model::memory_order_relaxed )) - 1);
+            return nHash & (( size_t( 1 ) << m_nBucketCountLog2.load( memory_model::memory_order_relaxed )) - 1);
         }
 
         static size_t parent_bucket( size_t nBucket )
         {
             assert( nBucket > 0 );
-            return nBucket & ~(1 << bitop::MSBnz( nBucket ));
+            return nBucket & ~( size_t( 1 ) << bitop::MSBnz( nBucket ));
         }
 
         aux_node_type * init_bucket( size_t const nBucket )
